@@ -63,6 +63,8 @@ func (e *vExpr) String() string {
 		return `"a\"\\b"`
 	case "prod":
 		return fmt.Sprintf("P%d", e.prod)
+	case "uni":
+		return "U"
 	case "seq":
 		return "(" + e.a.String() + " " + e.b.String() + ")"
 	case "alt":
@@ -92,6 +94,21 @@ func (e *vExpr) String() string {
 // vWithEscapedLiteral adds a second literal, a"\b, whose text needs escaping (used by the C14 stand-in).
 var vWithEscapedLiteral = false
 
+// vWithUnion adds a union-typed leaf U (used by the C08 stand-in): a union whose members are all productions but
+// the first (the first itself when there is only one).
+var vWithUnion = false
+
+func vUnionMembers(nprod int) []int {
+	if nprod == 1 {
+		return []int{0}
+	}
+	var m []int
+	for i := 1; i < nprod; i++ {
+		m = append(m, i)
+	}
+	return m
+}
+
 var vUnary = []string{"opt", "star", "plus", "nonempty", "neg", "lookpos", "lookneg", "cap", "paren"}
 
 // vEnum enumerates all expressions with exactly `size` operator/leaf nodes over nprod productions.
@@ -107,6 +124,9 @@ func vEnum(size, nprod int, memo map[int][]*vExpr) []*vExpr {
 		}
 		for i := 0; i < nprod; i++ {
 			out = append(out, &vExpr{op: "prod", prod: i})
+		}
+		if vWithUnion {
+			out = append(out, &vExpr{op: "uni"})
 		}
 	} else {
 		for _, u := range vUnary {
@@ -134,6 +154,13 @@ func specNullable(e *vExpr, bodies []*vExpr, nul []bool) bool {
 		return false
 	case "prod":
 		return nul[e.prod]
+	case "uni":
+		for _, m := range vUnionMembers(len(bodies)) {
+			if nul[m] {
+				return true
+			}
+		}
+		return false
 	case "seq":
 		return specNullable(e.a, bodies, nul) && specNullable(e.b, bodies, nul)
 	case "alt":
@@ -150,6 +177,10 @@ func specFirst(e *vExpr, bodies []*vExpr, nul []bool, out map[int]bool) {
 	switch e.op {
 	case "prod":
 		out[e.prod] = true
+	case "uni":
+		for _, m := range vUnionMembers(len(bodies)) {
+			out[m] = true
+		}
 	case "seq":
 		specFirst(e.a, bodies, nul, out)
 		if specNullable(e.a, bodies, nul) {
@@ -206,6 +237,14 @@ func specLeftRecursive(bodies []*vExpr) bool {
 			reach[e.prod] = true
 			mark(bodies[e.prod])
 		}
+		if e.op == "uni" {
+			for _, m := range vUnionMembers(len(bodies)) {
+				if !reach[m] {
+					reach[m] = true
+					mark(bodies[m])
+				}
+			}
+		}
 		mark(e.a)
 		mark(e.b)
 	}
@@ -234,6 +273,13 @@ func vBuild(e *vExpr, prods []*strct) node {
 		return &literal{s: "a\"\\b", t: lexer.EOF}
 	case "prod":
 		return prods[e.prod]
+	case "uni":
+		u := &union{unionDef: unionDef{typ: reflect.TypeOf((*fmt.Stringer)(nil)).Elem()}}
+		for _, m := range vUnionMembers(len(prods)) {
+			u.members = append(u.members, prods[m].typ)
+			u.disjunction.nodes = append(u.disjunction.nodes, prods[m])
+		}
+		return u
 	case "seq":
 		// flatten right-nested sequences the way parseSequence builds them
 		var items []*vExpr
@@ -322,12 +368,14 @@ func validateNoPanic(n node) (err error, panicked interface{}) {
 // re-enter itself before consuming a token.
 func TestVerif_C08_LeftRecursion(t *testing.T) {
 	res := &verifResult{Check: "validate left recursion", Property: "C08", Exhaustive: true,
-		Bound: "all grammars with one production whose body has <= 4 (thorough: 5) operator/leaf nodes, and all grammars with two productions with bodies of <= 3 (thorough: P0 <= 3, P1 <= 4) nodes, over {literal, production reference, sequence, choice, ? * + !, ~, (?= ), (?! ), capture, redundant parentheses}; node graphs built directly in-package",
+		Bound: "all grammars with one production whose body has <= 4 (thorough: 5) operator/leaf nodes, and all grammars with two productions with bodies of <= 3 (thorough: P0 <= 3, P1 <= 4) nodes, over {literal, production reference, a union-typed reference (members: the other production), sequence, choice, ? * + !, ~, (?= ), (?! ), capture, redundant parentheses}; node graphs built directly in-package",
 		Rule: "distinct grammars; non-trivial = the specification says left-recursive, or the grammar has a nullable prefix / second alternative before a production reference"}
 	one, twoA, twoB := 4, 3, 3
 	if verifThorough() {
 		one, twoB = 5, 4
 	}
+	vWithUnion = true
+	defer func() { vWithUnion = false }()
 	check := func(bodies []*vExpr) {
 		res.Evaluations++
 		prods := vGrammar(bodies)
